@@ -1,13 +1,22 @@
 """Emulation of h5py's 'mpio' driver on top of the serial h5py of this sandbox, for thread-simulated ranks.
 
 `h5py.File(name, mode, driver='mpio', comm=comm)` is redirected to ONE shared serial h5py.File per file name;
-the collective operations (open, create_dataset, close) are rendezvous points on `comm` (Barrier), hyperslab
+the collective operations of parallel HDF5 (open, create_dataset, attribute creation, close: everything that changes
+the structure of the file) are NAMED rendezvous points on `comm` — members that issue different operations at the same
+point are reported by the simulated MPI as a mismatch, members that skip one leave the others blocked —, hyperslab
 writes go through unchanged.  Files are real HDF5 files.  Importing this module patches h5py.File."""
 import threading
 
 import h5py
 
 _real_File = h5py.File
+
+
+def _rendezvous(comm, what, name):
+    if hasattr(comm, '_collective'):
+        comm._collective(('h5py.' + what, name), None)
+    else:
+        comm.Barrier()
 _lock = threading.RLock()
 _open = {}   # filename -> [file, refcount]
 
@@ -16,7 +25,8 @@ class _SharedFile:
     def __init__(self, name, mode, comm):
         self._name = name
         self._comm = comm
-        comm.Barrier()
+        import os
+        _rendezvous(comm, 'File', os.path.basename(name))
         with _lock:
             if name not in _open:
                 _open[name] = [_real_File(name, mode), 0]
@@ -25,12 +35,12 @@ class _SharedFile:
         comm.Barrier()
 
     def create_dataset(self, name, shape, dtype=None, **kw):
-        self._comm.Barrier()
+        _rendezvous(self._comm, 'create_dataset', name)
         with _lock:
             if name not in self._f:
                 self._f.create_dataset(name, shape, dtype=dtype, **kw)
         self._comm.Barrier()
-        return _SharedDset(self._f[name])
+        return _SharedDset(self._f[name], self._comm)
 
     def __getitem__(self, k):
         return self._f[k]
@@ -39,7 +49,7 @@ class _SharedFile:
         return k in self._f
 
     def close(self):
-        self._comm.Barrier()
+        _rendezvous(self._comm, 'close', '')
         with _lock:
             ent = _open[self._name]
             ent[1] -= 1
@@ -50,9 +60,9 @@ class _SharedFile:
 
 
 class _SharedDset:
-    def __init__(self, d):
+    def __init__(self, d, comm=None):
         self._d = d
-        self.attrs = _Attrs(d)
+        self.attrs = _Attrs(d, comm)
 
     def __setitem__(self, k, v):
         with _lock:
@@ -72,10 +82,13 @@ class _SharedDset:
 
 
 class _Attrs:
-    def __init__(self, d):
+    def __init__(self, d, comm=None):
         self._d = d
+        self._comm = comm
 
     def create(self, name, data, shape=None, dtype=None):
+        if self._comm is not None:
+            _rendezvous(self._comm, 'attrs.create', name)
         with _lock:
             if name not in self._d.attrs:
                 self._d.attrs.create(name, data, shape, dtype)
